@@ -271,12 +271,14 @@ def run_case(case):
                 ts = TS.open(base_file=base)
                 Assoc.FIELD_SETS = [_aeic()[2].from_registry('vc_codec_b')]
 
-                def mapping_b(traj):
-                    t = ident(traj, False)['p']
+                # (the mapping function takes extra positional and keyword arguments, handed through by create_associated
+                # for EVERY trajectory: left at their defaults the values would be another trajectory's)
+                def mapping_b(traj, pos=40, *, shift=7):
+                    t = ident(traj, False)['p'] + pos + shift
                     v = values_for(case, t, len(traj))
                     return Assoc({'ts2': v['ts2'], 'tsm': v['tsm']})
 
-                ts.create_associated(assoc, ['vc_codec_b'], mapping_b)
+                ts.create_associated(assoc, ['vc_codec_b'], mapping_b, 0, shift=0)
                 open_kw = {'associated_files': [assoc]}
             elif layout == 'assoc_at_create':
                 ts = TS.create(base_file=base, associated_files=[(assoc, ['vc_codec'])])
@@ -306,11 +308,11 @@ def run_case(case):
                 ts = TS.open(base_file=base)
                 Assoc.FIELD_SETS = [fs]
 
-                def mapping(traj):
-                    t = ident(traj, False)['p']
+                def mapping(traj, pos=40, *, shift=7):
+                    t = ident(traj, False)['p'] + pos + shift
                     return Assoc({k: (DEFAULTS[k] if x is UNTOUCHED else x) for k, x in values_for(case, t, len(traj)).items()})
 
-                ts.create_associated(assoc, ['vc_codec'], mapping)
+                ts.create_associated(assoc, ['vc_codec'], mapping, 0, shift=0)
                 open_kw = {'associated_files': [assoc]}
             else:
                 raise MachineryError(f'unknown layout {layout}')
